@@ -144,7 +144,7 @@ fn script_level(d: &MDesc, p: &MPol, dead: &Option<String>, src: &mut Src, rep: 
         _ => {}
     });
     for _ in 0..6 {
-        let mut w = World { keys: BTreeSet::new(), preimages: BTreeSet::new(), lock_time: 0, sequence: 0xffff_fffe };
+        let mut w = World { keys: BTreeSet::new(), preimages: BTreeSet::new(), lock_time: 0, sequence: 0xffff_fffe, tx_version: 2 };
         let pk = src.range(1, 3);
         for k in &all_keys {
             if Some(k) == dead.as_ref() {
